@@ -3,7 +3,7 @@
 decode to which value tree (C03) and which instantiations must compile (C13).
 
 A definition = base shape + overlays (each overlay is one deviation from the plain shape)."""
-import copy, itertools, json, zlib
+import copy, re, itertools, json, zlib
 
 # ------------------------------------------------------------------ type expressions (tuples)
 
@@ -164,6 +164,19 @@ class V:
         self.name, self.shape, self.members, self.index, self.disc, self.skip, self.docs = name, shape, list(members), index, disc, skip, list(docs)
         self.foreign = []
         self.skip_last = False
+        self.lit = None         # spelling of the integer literals of this variant (index, discriminant): None = decimal
+
+
+def int_lit(n, style):
+    """the same integer value in another literal spelling"""
+    if style is None: return '%d' % n
+    if style == 'hex': return '0x%X' % n
+    if style == 'bin': return '0b%s' % bin(n)[2:]
+    if style == 'oct': return '0o%o' % n
+    if style == 'suffix': return '%du8' % n
+    if style == 'sep': return '_'.join(str(n)) if n >= 10 else '0_%d' % n
+    if style == 'hexsep': return '0x_%02x' % n
+    raise ValueError(style)
 
 
 class D:
@@ -292,9 +305,9 @@ def def_src(d):
             for f, _ in v.docs: out.append('    ' + f)
             for a in v.foreign: out.append('    ' + a)
             if v.skip and not v.skip_last: out.append('    #[codec(skip)]')
-            if v.index is not None: out.append('    #[codec(index = %d)]' % v.index)
+            if v.index is not None: out.append('    #[codec(index = %s)]' % int_lit(v.index, v.lit))
             if v.skip and v.skip_last: out.append('    #[codec(skip)]')
-            disc = (' = %d' % v.disc) if v.disc is not None else ''
+            disc = (' = %s' % int_lit(v.disc, v.lit if v.lit != 'suffix' else None)) if v.disc is not None else ''
             if v.shape == 'unit':
                 out.append('    %s%s,' % (v.name, disc))
             elif v.shape == 'named':
@@ -648,6 +661,25 @@ def ov_index(d):
             # the codec rejects duplicates among ALL variants, also skipped ones: keep them apart
             c.overlays.append('codec(index = %d) on variant %d' % (n, j))
             yield c
+    # the same attribute with the literal spelled differently (last variant, index 16)
+    for style in ('hex', 'suffix', 'sep', 'bin', 'oct', 'hexsep'):
+        c = d.clone()
+        c.variants[-1].index = 16
+        c.variants[-1].lit = style
+        idx = [i for _, i in variant_indices(c)]
+        if len(set(idx)) != len(idx): continue
+        c.overlays.append('codec(index = %s) on the last variant' % int_lit(16, style))
+        yield c
+
+
+def ov_literal(d):
+    """the explicit indices / discriminants of a definition spelled as hex, binary, octal, suffixed or digit-separated literals"""
+    if d.kind != 'enum' or not any(v.index is not None or v.disc is not None for v in d.variants): return
+    for style in ('hex', 'suffix', 'sep', 'bin', 'oct', 'hexsep'):
+        c = d.clone()
+        for v in c.variants: v.lit = style
+        c.overlays.append('integer literals spelled %s' % style)
+        yield c
 
 
 def ov_discriminant(d):
@@ -670,6 +702,12 @@ def ov_discriminant(d):
         if not ok: continue
         c.overlays.append('explicit discriminants %s' % p[:len(c.variants)])
         yield c
+        if p[0] == 3:
+            for style in ('hex', 'sep', 'bin'):
+                c2 = c.clone()
+                for v in c2.variants: v.lit = style
+                c2.overlays[-1] += ' spelled %s' % style
+                yield c2
 
 
 def ov_rename(d):
@@ -830,7 +868,7 @@ def ov_foreign(d):
                 yield c
 
 
-OVERLAYS = [ov_skip_member, ov_skip_variant, ov_compact, ov_index, ov_discriminant, ov_rename, ov_docs, ov_capture, ov_replace, ov_placement, ov_macro, ov_encoded_as, ov_foreign]
+OVERLAYS = [ov_skip_member, ov_skip_variant, ov_compact, ov_index, ov_discriminant, ov_literal, ov_rename, ov_docs, ov_capture, ov_replace, ov_placement, ov_macro, ov_encoded_as, ov_foreign]
 
 
 def rep_bases():
@@ -869,7 +907,15 @@ def enc_definitions(thorough):
                 continue
             res = list(ov(b))
             if not thorough and ov in structural and len(res) > 4:
-                res = res[::max(1, len(res) // 4)]
+                # position choices are subsampled, but every KIND of result of the overlay (its label with the numbers blanked) is kept at least once
+                kept = res[::max(1, len(res) // 4)]
+                kinds = {re.sub(r'[0-9]+', 'N', c.overlays[-1]) for c in kept}
+                for c in res:
+                    k = re.sub(r'[0-9]+', 'N', c.overlays[-1])
+                    if k not in kinds:
+                        kinds.add(k)
+                        kept.append(c)
+                res = kept
             for c in res:
                 push(c)
     for b in rep_bases():
